@@ -261,6 +261,41 @@ func root() string {
 	return "/verif"
 }
 
+// matchFinding: exact class match, or a pattern in which '*' stands for any
+// run of characters (used where one defect mechanism shows under a family of
+// classifier values, e.g. per feature type).
+func matchFinding(known map[string]finding, cl string) (finding, bool) {
+	if kf, ok := known[cl]; ok {
+		return kf, true
+	}
+	for pat, kf := range known {
+		if strings.Contains(pat, "*") && globMatch(pat, cl) {
+			return kf, true
+		}
+	}
+	return finding{}, false
+}
+
+func globMatch(pat, s string) bool {
+	parts := strings.Split(pat, "*")
+	if !strings.HasPrefix(s, parts[0]) {
+		return false
+	}
+	s = s[len(parts[0]):]
+	for i := 1; i < len(parts); i++ {
+		p := parts[i]
+		if i == len(parts)-1 {
+			return strings.HasSuffix(s, p)
+		}
+		j := strings.Index(s, p)
+		if j < 0 {
+			return false
+		}
+		s = s[j+len(p):]
+	}
+	return true
+}
+
 func loadFindings(id string) map[string]finding {
 	m := map[string]finding{}
 	b, err := os.ReadFile(filepath.Join(root(), "known_findings.json"))
@@ -813,7 +848,7 @@ func parent(c *Check, tier string) int {
 		vs := byClass[cl]
 		sort.Slice(vs, func(i, j int) bool { return vs[i].Idx < vs[j].Idx })
 		v := vs[0]
-		if kf, ok := known[cl]; ok {
+		if kf, ok := matchFinding(known, cl); ok {
 			knownLines = append(knownLines, fmt.Sprintf("KNOWN-FINDING: property=%s %s — %s (%d cases)", c.ID, cl, kf.What, len(vs)))
 			continue
 		}
